@@ -64,17 +64,49 @@ def conclude(job, spec, a, t0):
     known = load_known()
     kf = [k for k in known.get("findings", []) if k["property"] == prop]
     violations, undecided, known_hit = [], [], []
+    kani_failed_pids = {r["pid"] for r in job.results.values() if r["engine"] == "kani" and r["status"] == "failed"}
     for oname, r in sorted(job.results.items()):
         if r["status"] == "failed":
             hit = [k for k in kf if k["obligation"] == oname or re.fullmatch(k.get("obligation_re", "$^"), oname)]
             if hit:
                 known_hit.append((oname, r, hit[0]))
-            else:
-                violations.append((oname, r))
+                continue
+            if r["engine"] == "verus" and r["pid"] not in kani_failed_pids:
+                # A failed Verus proof alone means *undecided* (the solver may simply lack a spec for a construct the
+                # generated code now uses).  It becomes a violation only when corroborated: Kani refutes an obligation
+                # of the same program, or a concrete failing input is found on the really compiled derive.
+                r["replay_path"] = make_replay(job, oname, r, force_search=True)
+                if not r.get("replayed"):
+                    r2 = dict(r, status="undecided",
+                              detail="Verus could not prove this obligation, Kani proves the program's concrete twin (or has no harness for it) and the native search found no failing input: not a verdict. Verus said: " + runlib._short(r.get("detail", ""), 700))
+                    undecided.append((oname, r2))
+                    continue
+            violations.append((oname, r))
         elif r["status"] != "proved":
             undecided.append((oname, r))
-    for pid, why in list(job.fam.dropped.items()) + list(job.verus_rejected.items()):
+    # a program whose extracted text the Verus front end cannot ingest (unsupported construct after a change of
+    # the generated code) is NOT undecided if Kani fully decided it: the property was explored and held on it.
+    # It stays undecided when there is no Kani side for it (e.g. Debug) or Kani did not prove everything.
+    kani_by_pid = {}
+    for oname, r in job.results.items():
+        if r["engine"] == "kani":
+            kani_by_pid.setdefault(r["pid"], []).append(r["status"])
+    job.verus_only_rejected = {}
+    job.verus_rejected_kani_ok = {}
+    for pid, why in job.verus_rejected.items():
+        Pc = job.fam.programs.get(pid)
+        if Pc is not None and Pc.canary_of is not None:
+            continue        # a canary the Verus front end cannot ingest is simply not evaluated by that engine
+        sts = kani_by_pid.get(pid, [])
+        if sts and all(x == "proved" for x in sts):
+            job.verus_rejected_kani_ok[pid] = why
+        else:
+            job.verus_only_rejected[pid] = why
+    for pid, why in list(job.fam.dropped.items()) + list(job.verus_only_rejected.items()):
         undecided.append(("%s/%s" % (prop, pid), {"status": "undecided", "detail": why, "engine": "-", "pid": pid}))
+    if job.verus_rejected_kani_ok:
+        runlib.eprint("NOTE %s: Verus front end rejected the extracted text of %d program(s) (unsupported construct, not a verdict); Kani decided all of them: %s"
+                      % (prop, len(job.verus_rejected_kani_ok), sorted(job.verus_rejected_kani_ok)[:12]))
     # canaries: every canary obligation that is about the mutated contract must be refuted
     canary_bad = []
     n_canary_fail = 0
@@ -106,6 +138,8 @@ def conclude(job, spec, a, t0):
         missing = sorted(set(base) - set(names))
         if getattr(job, "aux_dropped", None):
             missing = [m for m in missing if "/aux/" not in m]
+        okp = set(getattr(job, "verus_rejected_kani_ok", {}))
+        missing = [m for m in missing if not (m.split("/")[1] in okp and base.get(m) == "verus")]
         extra = sorted(set(names) - set(base))
         # obligations lost because their program was dropped are already undecided
         if missing or extra:
@@ -121,7 +155,7 @@ def conclude(job, spec, a, t0):
     for oname, r, k in known_hit:
         print("KNOWN-FINDING: property=%s %s %s" % (prop, oname, k.get("what", "")))
     for oname, r in violations:
-        path = make_replay(job, oname, r)
+        path = r.get("replay_path") or make_replay(job, oname, r)
         tail = "" if r.get("replayed") else " no-failing-input-found"
         print("VIOLATION property=%s replay=%s obligation=%s%s" % (prop, path, oname, tail))
         rc = 1
@@ -142,7 +176,7 @@ SEARCH_BUDGET = [int(os.environ.get("VERIF_SEARCHES", "16"))]
 PLAYBACK_BUDGET = [int(os.environ.get("VERIF_PLAYBACKS", "2"))]
 
 
-def make_replay(job, oname, r):
+def make_replay(job, oname, r, force_search=False):
     """write the replay file for a failed obligation.  Input sources, in order: Kani's
     concrete playback of the failing harness of the same program (the concrete twin for a
     Verus failure), replayed natively through the same constructors; then a native
@@ -172,7 +206,7 @@ def make_replay(job, oname, r):
                 rec["kani_counterexample_bytes"] = vals
                 if vals is not None:
                     _native(job, P, ["bytes"] + [str(v) for v in vals], rec, r, "kani concrete playback")
-            if not r.get("replayed") and SEARCH_BUDGET[0] > 0:
+            if not r.get("replayed") and (SEARCH_BUDGET[0] > 0 or force_search):
                 SEARCH_BUDGET[0] -= 1
                 _native(job, P, ["search", "40000", str(job.seed)], rec, r, "native search guided by the failed obligation")
             elif not r.get("replayed"):
@@ -303,7 +337,8 @@ def write_evidence(job, spec, a, t0, violations=(), undecided=(), known_hit=(), 
         "checker_cmd": "verus <work>/%s/verus/v*.rs --output-json --time --rlimit 60 ; cargo kani -Z function-contracts -Z stubbing -j N --default-unwind 34 (in <work>/%s/fam)" % (job.prop, job.prop),
         "trusted_base": spec.get("trusted", []) + props.TRUSTED_COMMON,
         "programs": len([p for p in job.fam.programs.values() if p.canary_of is None]),
-        "programs_dropped_undecided": dict(job.fam.dropped, **{k: v for k, v in job.verus_rejected.items()}),
+        "programs_dropped_undecided": dict(job.fam.dropped, **{k: v for k, v in getattr(job, "verus_only_rejected", job.verus_rejected).items()}),
+        "verus_front_end_rejected_but_decided_by_kani": {k: runlib._short(v, 200) for k, v in getattr(job, "verus_rejected_kani_ok", {}).items()},
         "exhaustive": False,
         "family": {"tier": job.tier, "seed": job.seed, "bounds": spec.get("bounds", {}).get(job.tier, "")},
         "engines": {"verus": dict(job.stats["verus"], version=_ver("verus")), "kani": dict(job.stats["kani"], version=_ver("kani"))},
